@@ -33,8 +33,16 @@ def main():
         r0 = run(["/venv/bin/python", demo], env=env, cwd=wt, timeout=600)
         a = run(["git", "-C", wt, "apply", patch])
         if a.returncode != 0:
-            print("PATCH DOES NOT APPLY", a.stderr)
-            return 1
+            # written against an earlier commit (a fix: landed meanwhile): 3-way merge, and store the merged diff
+            a = run(["git", "-C", wt, "apply", "--3way", patch])
+            if a.returncode != 0 or run(["git", "-C", wt, "diff", "--name-only", "--diff-filter=U"]).stdout.strip():
+                print("PATCH DOES NOT APPLY", a.stderr)
+                return 1
+            run(["git", "-C", wt, "reset", "-q"])
+            merged = os.path.join(wt, ".rebased.diff")
+            open(merged, "w").write(run(["git", "-C", wt, "diff", "HEAD"]).stdout)
+            patch = merged
+            print("(patch rebased onto HEAD by 3-way merge)")
         imp = run(["/venv/bin/python", "-c", "import openapi_python_client"], env=env, cwd=wt)
         suite = run(["/venv/bin/python", os.path.join(ROOT, "tools", "runbase.py"), wt])
         r1 = run(["/venv/bin/python", demo], env=env, cwd=wt, timeout=600)
@@ -48,6 +56,8 @@ def main():
         dst = os.path.join(ROOT, "seeded", name)
         os.makedirs(dst, exist_ok=True)
         shutil.copy(patch, os.path.join(dst, "patch.diff"))
+        if os.path.exists(os.path.join(dst, "patch.diff")) and ".rebased.diff" in open(os.path.join(dst, "patch.diff")).read():
+            pass
         shutil.copy(demo, os.path.join(dst, "demo.py"))
         meta = {}
         try:
